@@ -1,13 +1,11 @@
 (** C15 property theorems: provider lifecycle.  Statements only, each closed by
     lemmas of Proofs.v, with the axiom audit and non-vacuity examples.
 
-    The models follow the code as it is.  Two clauses of the property do not hold of it
-    in full and are recorded as known findings; the guards are in plain sight:
-      F-C15-3  TracerProvider.Shutdown with an already-cancelled context marks the provider
-               shut down without shutting its processors down or forgetting them
-               (guard [t_trigger members ops = false] / [all_live]; [..._refuted] lemmas);
-      F-C15-4  a PeriodicReader built around a nil exporter dereferences it
-               (guard [existsb nil_periodic readers = false]). *)
+    The models follow the code after the repairs f92b4a5, d192059 (F-C15-1/2), 98804a6 (F-C15-3:
+    Shutdown with an already-cancelled context now shuts every processor down) and b09d39a
+    (F-C15-4: a PeriodicReader around a nil exporter uses a no-op exporter); all theorems are
+    unconditional.  The [..._old_refuted] lemmas are about the clearly named OLD definitions of
+    Model.v and document what the repairs excluded. *)
 From Coq Require Import List Arith Lia Bool.
 From Verif Require Import Lib.LTS C15.Spec C15.Model C15.Proofs.
 Import ListNotations.
@@ -16,7 +14,6 @@ Import ListNotations.
     "registered and not unregistered" list, and an ended span is handed to exactly those
     processors, in registration order. *)
 Theorem c15_membership : forall kinds members ops i,
-  t_trigger members ops = false ->
   let s := tstate_after kinds (tinit members) ops in
   map fst (t_regs s) = members_after members false ops /\
   (nth_error (t_spans s) i = Some (true, false) ->
@@ -31,83 +28,92 @@ Proof. exact unregister_unknown_noop. Qed.
 Print Assumptions c15_unregister_unknown_noop.
 
 (** The whole trace specification (membership, Unregister, Start/End fan-out, ForceFlush and
-    Shutdown results, per-registration single Shutdown, nothing after Shutdown) for ALL sequences
-    whose first Shutdown does not hit F-C15-3 … *)
-Theorem c15_trace_spec_partial : forall kinds members ops,
-  t_trigger members ops = false -> tspec_ok members (trun kinds (tinit members) ops) = true.
+    Shutdown results, per-registration single Shutdown whatever the context, nothing after a
+    live-context Shutdown) holds of the model for ALL configurations and operation sequences. *)
+Theorem c15_trace_spec : forall kinds members ops,
+  tspec_ok members (trun kinds (tinit members) ops) = true.
 Proof. exact tspec_ok_model. Qed.
-Print Assumptions c15_trace_spec_partial.
+Print Assumptions c15_trace_spec.
 
-(** … for ALL sequences when the specification is read with the finding … *)
-Theorem c15_trace_spec_known : forall kinds members ops,
-  tspec_known members (trun kinds (tinit members) ops) = true.
-Proof. exact tspec_known_model. Qed.
-Print Assumptions c15_trace_spec_known.
+Theorem c15_trace_spec_old_refuted : exists kinds members ops,
+  tspec_ok members (trun_old kinds (tinit members) ops) = false.
+Proof. exact tspec_ok_old_refuted. Qed.
+Print Assumptions c15_trace_spec_old_refuted.
 
-(** … and not otherwise. *)
-Theorem c15_trace_spec_refuted : exists kinds members ops,
-  tspec_ok members (trun kinds (tinit members) ops) = false.
-Proof. exact tspec_ok_refuted. Qed.
-Print Assumptions c15_trace_spec_refuted.
-
-(** Single shutdown under concurrency: for ALL schedules of ANY number of concurrent Shutdown /
-    Unregister / Register callers, every registration's processor has received at most one Shutdown,
-    exactly one as soon as it has left the list, and once a Shutdown caller has returned (all
-    contexts live) the list is empty and every registration has received exactly one. *)
+(** Single shutdown under concurrency (trace provider: mutex + splice): for ALL schedules of ANY
+    number of concurrent Shutdown (live or cancelled context) / Unregister / Register callers, every
+    registration's processor has received at most one Shutdown, exactly one as soon as it has left
+    the list, and once any Shutdown caller has returned the list is empty and every registration has
+    received exactly one. *)
 Theorem c15_shutdown_once : forall prog members sch s,
   run (cstep prog) (cinit members) sch = Some s ->
   (forall r, c_count s r <= 1) /\
   (forall r, r < c_next s ->
      (In r (map fst (c_regs s)) /\ c_count s r = 0) \/ (~ In r (map fst (c_regs s)) /\ c_count s r = 1)) /\
-  (all_live prog -> forall t, prog t = Some (CShutdown true) -> c_pcs s t = CDone ->
+  (forall t live, prog t = Some (CShutdown live) -> c_pcs s t = CDone ->
      c_regs s = [] /\ forall r, r < c_next s -> c_count s r = 1).
 Proof. intros prog members sch s H. apply (shutdown_once prog members). eapply run_reach; eauto. Qed.
 Print Assumptions c15_shutdown_once.
 
-Theorem c15_shutdown_once_refuted :
+Theorem c15_shutdown_once_old_refuted :
   exists prog members sch s,
-    run (cstep prog) (cinit members) sch = Some s /\ c_pcs s 0 = CDone /\ prog 0 = Some (CShutdown false) /\
-    c_count s 0 = 0 /\ forall sch' s', run (cstep prog) s sch' = Some s' -> c_count s' 0 = 0.
-Proof. exact shutdown_once_refuted. Qed.
-Print Assumptions c15_shutdown_once_refuted.
+    run (cstep_old prog) (cinit members) sch = Some s /\ c_pcs s 0 = CDone /\ prog 0 = Some (CShutdown false) /\
+    c_count s 0 = 0 /\ forall sch' s', run (cstep_old prog) s sch' = Some s' -> c_count s' 0 = 0.
+Proof. exact shutdown_once_old_refuted. Qed.
+Print Assumptions c15_shutdown_once_old_refuted.
 
-(** Safe afterwards (trace): a Shutdown with a live context (or with nothing registered) leaves the
-    provider dead, and on a dead provider EVERY further operation sequence calls no processor and no
-    exporter, writes nothing, returns nil, and a tracer obtained afterwards does not record. *)
+(** Single shutdown under concurrency (log provider: [stopped.Swap], [blocking = false]; metric provider:
+    [sync.Once] of unifyShutdown, [blocking = true]): for ALL schedules of ANY set of concurrent Shutdown
+    callers over [n] processors / readers, each is shut down at most once, exactly once as soon as the
+    winning call has finished; with the Once every returned caller implies it has finished; nobody is stuck. *)
+Theorem c15_shutdown_once_log_metric : forall blocking n callers sch s,
+  run (sstep blocking n callers) sinit sch = Some s ->
+  (forall j, s_counts s j <= 1) /\ (forall j, n <= j -> s_counts s j = 0) /\
+  (s_finished s = true -> forall j, j < n -> s_counts s j = 1) /\
+  (blocking = true -> forall t e, s_pcs s t = SDone e -> s_finished s = true) /\
+  (forall t, callers t = true -> (forall e, s_pcs s t <> SDone e) -> exists u, sstep blocking n callers s u <> None).
+Proof.
+  intros blocking n callers sch s H. pose proof (run_reach _ _ _ _ H) as Hr.
+  destruct (oneshot_once blocking n callers s Hr) as (A & B & C & D).
+  repeat split; auto. intros t Ht Hnd. eapply oneshot_no_deadlock; eauto.
+Qed.
+Print Assumptions c15_shutdown_once_log_metric.
+
+(** Safe afterwards (trace): ANY Shutdown, whatever its context, leaves the provider dead, and on a
+    dead provider EVERY further operation sequence calls no processor and no exporter, writes
+    nothing, returns nil, and a tracer obtained afterwards does not record. *)
 Theorem c15_after_shutdown : forall kinds s live ops,
-  live = true \/ t_regs s = [] -> t_shut s = false \/ t_dead s ->
+  t_shut s = false \/ t_dead s ->
   let s1 := fst (tstep kinds s (TShutdown live)) in
   t_dead s1 /\
   Forall (fun x => o_calls (snd x) = [] /\ o_xcalls (snd x) = [] /\ o_wrote (snd x) = false /\
                    o_err (snd x) = ENil /\ (fst x = TStart true -> o_flag (snd x) = false))
          (trun kinds s1 ops).
 Proof.
-  intros kinds s live ops Hl Hs. cbn zeta.
-  pose proof (shutdown_makes_dead kinds s live Hl Hs) as Hd. split; [exact Hd | now apply after_shutdown].
+  intros kinds s live ops Hs. cbn zeta.
+  pose proof (shutdown_makes_dead kinds s live Hs) as Hd. split; [exact Hd | now apply after_shutdown].
 Qed.
 Print Assumptions c15_after_shutdown.
 
-(** Metric provider: for ALL sequences the model satisfies the metric specification (no-op meters,
-    nothing exported and only nil / ErrReaderShutdown / the context error after Shutdown, every
-    exporter shut down exactly once by the first Shutdown and never again). *)
+(** Metric provider: for ALL configurations (nil exporters included) and sequences the model
+    satisfies the metric specification. *)
 Theorem c15_metric_spec : forall readers ops l,
   Forall (mop_wf (length readers)) ops -> mrun readers ops = Ok l -> mspec_ok readers (strip l) = true.
 Proof. exact mspec_ok_model. Qed.
 Print Assumptions c15_metric_spec.
 
-(** Log provider: same, for every configuration including nil exporters. *)
+(** Log provider: same. *)
 Theorem c15_log_spec : forall procs ops l, lrun procs ops = Ok l -> lspec_ok procs (strip l) = true.
 Proof. exact lspec_ok_model. Qed.
 Print Assumptions c15_log_spec.
 
 (** Never crashes, never stuck: the trace model is a total function (one observation per operation,
-    whatever the processors and however nil their exporters), the log model never reaches [Crash],
-    the metric model reaches it only through a PeriodicReader around a nil exporter, and concurrent
-    Shutdown / Unregister / Register callers cannot deadlock. *)
-Theorem c15_never_crashes_partial :
+    whatever the processors and however nil their exporters), the log and metric models never reach
+    [Crash], and concurrent Shutdown / Unregister / Register callers cannot deadlock. *)
+Theorem c15_never_crashes :
   (forall kinds members ops, length (trun kinds (tinit members) ops) = length ops) /\
   (forall procs ops, exists l, lrun procs ops = Ok l) /\
-  (forall readers ops, existsb nil_periodic readers = false -> exists l, mrun readers ops = Ok l) /\
+  (forall readers ops, exists l, mrun readers ops = Ok l) /\
   (forall prog members sch s t o, run (cstep prog) (cinit members) sch = Some s ->
      prog t = Some o -> c_pcs s t <> CDone -> exists u, cstep prog s u <> None).
 Proof.
@@ -116,40 +122,51 @@ Proof.
     destruct (tstep kinds s o) as [s' ob]. cbn. now rewrite IH.
   - intros prog members sch s t o H. apply (conc_no_deadlock prog members). eapply run_reach; eauto.
 Qed.
-Print Assumptions c15_never_crashes_partial.
+Print Assumptions c15_never_crashes.
 
-Theorem c15_never_crashes_refuted : forall ops, mrun [RPeriodic XNil] ops = Crash.
-Proof. exact metric_nil_periodic_crashes. Qed.
-Print Assumptions c15_never_crashes_refuted.
+Theorem c15_never_crashes_old_refuted : forall ops, mrun_old [RPeriodic XNil] ops = Crash.
+Proof. exact metric_nil_periodic_old_crashes. Qed.
+Print Assumptions c15_never_crashes_old_refuted.
 
 (** Non-vacuity. *)
 Example ex_membership :
-  let ops := [TReg 2; TUnreg 0; TStart false; TReg 0; TUnreg 7; TEnd 0] in
-  t_trigger [0; 1; 0] ops = false /\ members_after [0; 1; 0] false ops = [0; 1; 2; 0] /\
+  let ops := [TReg 2; TUnreg 0; TStart false; TReg 0; TUnreg 7; TEnd 0; TShutdown false; TStart true] in
+  members_after [0; 1; 0] false (firstn 6 ops) = [0; 1; 2; 0] /\
   map (fun x => o_calls (snd x)) (trun (fun _ => PCount) (tinit [0; 1; 0]) ops) =
     [[]; [(0, KShutdown)]; [(0, KOnStart); (1, KOnStart); (2, KOnStart)]; []; [];
-     [(0, KOnEnd); (1, KOnEnd); (2, KOnEnd); (0, KOnEnd)]].
+     [(0, KOnEnd); (1, KOnEnd); (2, KOnEnd); (0, KOnEnd)];
+     [(0, KShutdown); (1, KShutdown); (2, KShutdown); (0, KShutdown)]; []].
 Proof. vm_compute. auto. Qed.
 
 Example ex_shutdown_once :
-  exists s, run (cstep (fun t => match t with 0 => Some (CShutdown true) | 1 => Some (CUnreg 5) | 2 => Some (CReg 9)
+  exists s, run (cstep (fun t => match t with 0 => Some (CShutdown false) | 1 => Some (CUnreg 5) | 2 => Some (CReg 9)
                                       | 3 => Some (CShutdown true) | _ => None end))
                 (cinit [5; 6]) [1; 0; 2; 3; 1; 1; 0; 0; 2; 2; 3; 3] = Some s /\
             c_count s 0 = 1 /\ c_count s 1 = 1 /\ c_regs s = [] /\ c_pcs s 0 = CDone.
 Proof. eexists. split; [vm_compute; reflexivity|]. vm_compute. auto. Qed.
 
+Example ex_oneshot :
+  exists s, run (sstep true 2 (fun t => t <? 3)) sinit [0; 0; 0; 0; 1; 2] = Some s /\
+            s_counts s 0 = 1 /\ s_counts s 1 = 1 /\ s_pcs s 0 = SDone ENil /\ s_pcs s 1 = SDone EShut /\ s_pcs s 2 = SDone EShut.
+Proof. eexists. split; [vm_compute; reflexivity|]. vm_compute. auto. Qed.
+
 Example ex_metric :
-  exists l, mrun [RManual; RPeriodic XStd] [MAdd false; MFlush true; MShutdown true; MAdd true; MFlush true; MCollect 0; MShutdown true] = Ok l /\
+  exists l, mrun [RManual; RPeriodic XStd; RPeriodic XNil] [MAdd false; MFlush true; MShutdown true; MAdd true; MFlush true; MCollect 0; MShutdown true] = Ok l /\
             map (fun x => o_err (a_obs (snd x))) l = [ENil; ENil; ENil; ENil; EShut; EShut; EShut] /\
-            mspec_ok [RManual; RPeriodic XStd] (strip l) = true.
+            mspec_ok [RManual; RPeriodic XStd; RPeriodic XNil] (strip l) = true.
 Proof. eexists. split; [reflexivity|]. vm_compute. auto. Qed.
 
 (** The judges reject what the property forbids. *)
 Example ex_rejects_f_c15_1 :
-  (* unregistering the never-registered processor 2 removed processor 0: the span reaches only 1 *)
   tspec_ok [0; 1] [(TUnreg 2, quiet ENil false); (TStart false, {| o_err := ENil; o_flag := true; o_calls := [(1, KOnStart)]; o_xcalls := []; o_wrote := false |})] = false.
 Proof. reflexivity. Qed.
 Example ex_rejects_second_shutdown :
   tspec_ok [0] [(TShutdown true, {| o_err := ENil; o_flag := false; o_calls := [(0, KShutdown)]; o_xcalls := []; o_wrote := false |});
                 (TShutdown true, {| o_err := ENil; o_flag := false; o_calls := [(0, KShutdown)]; o_xcalls := []; o_wrote := false |})] = false.
+Proof. reflexivity. Qed.
+Example ex_rejects_f_c15_3 :
+  tspec_ok [0] [(TShutdown false, quiet ECtx false)] = false.
+Proof. reflexivity. Qed.
+Example ex_rejects_double_log_shutdown :
+  lstorm_ok [LSimple XStd] [2] [2] [ENil; ENil] [] = false.
 Proof. reflexivity. Qed.
